@@ -142,9 +142,14 @@ func (db *DB) Compact() (CompactionResult, error) {
 		db.maintenanceMu.Unlock()
 	}()
 
-	db.mu.RLock()
+	db.mu.Lock()
 	segments := db.pickForCompaction()
-	db.mu.RUnlock()
+	// Seal the picked segments right away. A segment is picked based on the records it holds now
+	// (delete records in particular), so nothing may be appended to it after this point.
+	for _, seg := range segments {
+		seg.meta.Full = true
+	}
+	db.mu.Unlock()
 	verifYield("compact.picked")
 
 	for _, seg := range segments {
